@@ -228,3 +228,4 @@ def check(ctx):
                "ever consumes it", f.where())
     # ---- R-TYPE (F33): only the owner polls the single-consumer event queue
     witness.run_witness(ctx, "c16_cqueue", ctx.prog.extract_info.get("target"))
+    shared.no_blocking_landing_pad(ctx)
